@@ -198,8 +198,9 @@ func calibrationProbe() { calibrationWord++ }
 // concTransport delivers requests to the shared handler in the calling
 // goroutine, with a scheduling point before delivery and before returning.
 type concTransport struct {
-	h         http.Handler
-	calibrate bool
+	h          http.Handler
+	calibrate  bool
+	redirected bool
 }
 
 func (tr *concTransport) gctxFor(t *ctask) *gctx {
@@ -281,6 +282,15 @@ func (tr *concTransport) RoundTrip(creq *http.Request) (*http.Response, error) {
 		return nil, fmt.Errorf("vsim: handler panicked: %s", firstLines(pan, 1))
 	}
 	tr.gctxFor(t).logf("wire %s %s -> %d", sreq.Method, sreq.RequestURI, resp.Status)
+	if tr.redirected && creq.URL != nil {
+		// what http.Client hands back after following a redirect to the
+		// canonical origin: the answer names the request that was finally sent
+		u := *creq.URL
+		u.Scheme, u.Host = "https", "www."+strings.TrimPrefix(u.Host, "www.")
+		final := creq.Clone(creq.Context())
+		final.URL = &u
+		creq = final
+	}
 	return &http.Response{
 		Status: fmt.Sprintf("%d %s", resp.Status, http.StatusText(resp.Status)), StatusCode: resp.Status,
 		Proto: "HTTP/1.1", ProtoMajor: 1, ProtoMinor: 1, Header: resp.H.Clone(),
@@ -464,7 +474,7 @@ func runTasks(plan *Plan, tasks []TaskPlan, base string, log *Log) (*concResult,
 	time.Sleep(time.Until(epoch.Add(time.Hour)))
 
 	handler := &webdav.Handler{FileSystem: webdav.LocalFileSystem(w.Root)}
-	tr := &concTransport{h: handler, calibrate: plan.Calibrate}
+	tr := &concTransport{h: handler, calibrate: plan.Calibrate, redirected: plan.Config.Redirected}
 	client, err := webdav.NewClient(&http.Client{Transport: tr}, "http://dav.test/")
 	if err != nil {
 		return nil, "cannot create client: " + err.Error()
